@@ -80,6 +80,9 @@ func main() {
 	loadS := time.Since(start).Seconds()
 	ex := NewExec(ld.Prog, lib, *prop)
 	ex.callSites = map[string][]string{}
+	if os.Getenv("GOVC_DEBUG") != "" {
+		ex.usedLocals = map[string]bool{}
+	}
 	ex.findSentinels()
 	ex.findConstGlobals()
 	ex.errs = append(ex.errs, lib.LintGhostFrames()...)
@@ -130,6 +133,9 @@ func main() {
 		fmt.Fprintf(os.Stderr, "discharge took %.1fs\n", time.Since(tD).Seconds())
 	}
 	if os.Getenv("GOVC_DEBUG") != "" {
+		for _, k := range sortedBoolKeys(ex.usedLocals) {
+			fmt.Fprintf(os.Stderr, "local used by name: %s\n", k)
+		}
 		for k, v := range ex.inlineCount {
 			if v > 200 {
 				fmt.Fprintf(os.Stderr, "inlined %d times: %s\n", v, k)
